@@ -107,7 +107,7 @@ func main() {
 	// string operations), per initial state
 	fullLen, coreLen, deepLen := mc.Pick(r, 2, 3), mc.Pick(r, 3, 3), mc.Pick(r, 3, 4)
 	fullSeeded, coreSeeded := mc.Pick(r, 2, 2), mc.Pick(r, 2, 3)
-	casesPerProgram := mc.Pick(r, 160, 320) // bigger programs amortise the per-program costs (runtime compile, two 64 MiB instances)
+	casesPerProgram := 160 // upper bound; see balanced()
 	r.Rule("every history of <= full_len ownership operations over the full alphabet (44 operations: the 21 core operations plus identity / no-op / empty-operand variants, string and slice aliases, swaps, field addresses) and every history of <= core_len operations over the core alphabet (<= deep_len over the core alphabet without its two string operations), from two initial states (all zero; seeded with nodes, a 2-element slice, a map entry and an aliased heap string); one case function per history with an observation of all reachable data after every operation; each case runs on the real compiled program with instrumented runtime (monitor: live set + mirrored reference counts) without and with 0xA5 poisoning at free, and is compared with Go; distinct = distinct Go outputs")
 	r.Bound("ops_full", len(progs.OwnOps))
 	r.Bound("ops_core", progs.OwnCoreOps)
@@ -294,7 +294,7 @@ func main() {
 	if rn.Capped == "" && (rn.NRetain == 0 || rn.NFree == 0 || rn.NMalloc == 0) {
 		r.HarnessError("vacuous: the monitor saw malloc=%d free=%d retain=%d release=%d", rn.NMalloc, rn.NFree, rn.NRetain, rn.NRelease)
 	}
-	if rn.Capped == "" && r.DistinctCount() < len(hs)/20 {
+	if rn.Capped == "" && r.DistinctCount() < len(hs)/100 {
 		r.HarnessError("vacuous: only %d distinct outputs for %d histories", r.DistinctCount(), len(hs))
 	}
 	r.Finish()
